@@ -192,6 +192,7 @@ def cross_crs(run):
     k = 0
     small_overhang(run, tmp)
     elongated_reference(run, tmp)
+    rotated_reference_other_crs(run, tmp)
     for name, scrs, rcrs, (rx0, rytop) in pairs:
         rres, rw, rh = 10.0, 400, 400
         rt = Affine(rres, 0, rx0, 0, -rres, rytop)
@@ -383,3 +384,63 @@ def elongated_reference(run, tmp):
                                     f'source {"flush with" if over == 0 else "inside"} the far edge of a {rh} x {rw} reference was rejected'
                                     if got == 0 else f'construction raised {got}'),
                              signature=dict(kind='elongated', accepted=got == 1))
+
+
+def rotated_reference_other_crs(run, tmp):
+    """
+    A *rotated* reference in a coordinate system other than the source's (neighbouring UTM zones): homonim sees the reference
+    through one WarpedVRT in the source CRS; a source lying beyond the bounding box of that re-projected reference by a few
+    reference pixels, on any side, lies beyond the reference footprint a fortiori and must be rejected; a small source at the
+    centre of the footprint must be accepted.  Whatever processing grid is requested.
+    """
+    import warnings
+    import numpy as np
+    import rasterio as rio
+    from rasterio.crs import CRS
+    from rasterio.transform import Affine
+    from rasterio.vrt import WarpedVRT
+    from homonim import RasterFuse, RasterCompare
+    from homonim.enums import ProcCrs
+    from homonim.errors import ImageContentError
+    scrs, rcrs = CRS.from_epsg(32734), CRS.from_epsg(32735)
+    rres, rw, rh = 10.0, 300, 260
+    k = 0
+    for ang in (20.0, -30.0):
+        rt = Affine.translation(300_000.0, 6_200_000.0) * Affine.rotation(ang) * Affine.scale(rres, -rres)
+        rp = tmp / 'c16rr_r.tif'
+        with rio.open(rp, 'w', driver='GTiff', width=rw, height=rh, count=1, dtype='float32', crs=rcrs, transform=rt, nodata=float('nan')) as ds:
+            ds.write(np.ones((1, rh, rw), dtype='float32'))
+        with rio.open(rp) as rds, WarpedVRT(rds, crs=scrs) as vrt:
+            wl, wb, wr, wt = vrt.bounds
+            vres = abs(vrt.transform.a)
+        sres, sw, sh = 5.0, 20, 20
+        cx, cy = (wl + wr) / 2, (wb + wt) / 2
+        places = {'centre': (cx - sw * sres / 2, cy + sh * sres / 2, 1),
+                  'right': (wr + 3 * vres - sw * sres, cy + sh * sres / 2, 0), 'left': (wl - 3 * vres, cy + sh * sres / 2, 0),
+                  'top': (cx - sw * sres / 2, wt + 3 * vres, 0), 'bottom': (cx - sw * sres / 2, wb - 3 * vres + sh * sres, 0)}
+        for place, (sx0, sy0, want) in places.items():
+            sp = tmp / 'c16rr_s.tif'
+            with rio.open(sp, 'w', driver='GTiff', width=sw, height=sh, count=1, dtype='float32', crs=scrs,
+                          transform=Affine(sres, 0, sx0, 0, -sres, sy0), nodata=float('nan')) as ds:
+                ds.write(np.ones((1, sh, sw), dtype='float32'))
+            for proc in ('auto', 'ref'):
+                for cls in (RasterFuse, RasterCompare):
+                    k += 1
+                    case = dict(i=880_000 + k, op='rotated reference in another CRS', angle=ang, placement=place, proc_crs=proc, cls=cls.__name__)
+                    try:
+                        with warnings.catch_warnings():
+                            warnings.simplefilter('ignore')
+                            cls(sp, rp, proc_crs=ProcCrs(proc))
+                        got = 1
+                    except ImageContentError:
+                        got = 0
+                    except Exception as ex:
+                        got = f'other:{type(ex).__name__}:{str(ex)[:60]}'
+                    run.evaluations += 1
+                    run.hist['rotated reference in another CRS'] += 1
+                    run.nontrivial.add(('rot-xcrs', ang, place, proc, cls.__name__))
+                    if got != want:
+                        run.fail(case, (f'source 3 reference pixels beyond the {place} side of the bounding box of the re-projected (rotated {ang} deg) '
+                                        f'reference - hence beyond its footprint - was accepted' if got == 1 else
+                                        f'source at the centre of the rotated reference was rejected' if got == 0 else f'construction raised {got}'),
+                                 signature=dict(kind='rotated-cross-crs', accepted=got == 1))
